@@ -590,8 +590,18 @@ func (in *Interp) violation(label, msg string, _ bool, siteOpt ...string) {
 	n := ex.vioSeen[key]
 	ex.vioSeen[key]++
 	ex.mu.Unlock()
+	replace := -1
 	if n >= maxVioPerKey {
-		return
+		// reservoir sampling over all counterexamples of this (assertion, site): the kept candidates are
+		// spread over the exploration instead of being the first ones found (which tend to come from one
+		// harness shape, and may all depend on values of idealised primitives)
+		h := uint64(n+1)*0x9E3779B97F4A7C15 ^ uint64(len(in.decisions64))*0xBF58476D1CE4E5B9
+		h ^= h >> 29
+		j := int(h % uint64(n+1))
+		if j >= maxVioPerKey || n > 4096 {
+			return
+		}
+		replace = j
 	}
 	items, ok := in.model()
 	if !ok {
@@ -606,9 +616,23 @@ func (in *Interp) violation(label, msg string, _ bool, siteOpt ...string) {
 	v := Violation{Entry: ex.entry.Name(), Label: label, Msg: msg, Site: site, Known: known, Inputs: items,
 		Path: append([]int64{}, in.decisions64...), Notes: append([]string{}, in.pathNotes...), Modelled: ok, Sched: append([]string{}, in.sched...)}
 	ex.mu.Lock()
-	ex.res.Violations = append(ex.res.Violations, v)
-	if known == "" {
-		ex.freshVio++
+	if replace >= 0 {
+		k := 0
+		for i := range ex.res.Violations {
+			o := &ex.res.Violations[i]
+			if o.Label+"|"+o.Site+"|"+o.Known == key {
+				if k == replace {
+					*o = v
+					break
+				}
+				k++
+			}
+		}
+	} else {
+		ex.res.Violations = append(ex.res.Violations, v)
+		if known == "" {
+			ex.freshVio++
+		}
 	}
 	ex.mu.Unlock()
 }
